@@ -179,13 +179,13 @@ def main(tier, replay=None):
     design = DESIGN_QUICK if quick else DESIGN_THOROUGH
     negctl = {k: x for k, x in NEGCTL.items() if not quick or k in NEGCTL_QUICK}
     big = {'all_str', 'flow_str3', 'flow_stream', 'block_stream2'}
-    jobs = [(n, d, 8 if n in big else 4, 3000) for n, d in design.items()] + [(n, d, 3, 900) for n, d in negctl.items()]
+    jobs = [(n, d, 8 if n in big else 4, 3000) for n, d in design.items()] + [(n, d, 2, 900) for n, d in negctl.items()]
     jobs.sort(key=lambda j: 0 if j[0] in big else 1)
     # the real code is measured in worker processes while TLC explores the models
     pool = mp.Pool(11 if quick else 12)
     a_calls = pool.map_async(U.measure_calls, calls, chunksize=1)
     a_prims = pool.map_async(U.measure_prims, prims, chunksize=1)
-    with ThreadPoolExecutor(3 if quick else 2) as ex:
+    with ThreadPoolExecutor(5 if quick else 2) as ex:      # quick: 16 small JVM runs, start-up dominated
         results = dict(ex.map(run_tlc, jobs))
     # ---------------------------------------------------------------- (a) design checks
     states = trans = 0
